@@ -67,6 +67,9 @@ pub enum AllocPath {
     DeserMapNull,
     /// container file, null codec: the declared byte size of a block
     BlockSize,
+    /// the same for the third block of a file read by one long-lived reader, after blocks of
+    /// 0.55 n and 0.65 n bytes have grown its reused buffer (n >= 16)
+    BlockSizeAfterGrowth,
     Decompress(CodecKind),
     /// container file whose single block decompresses to `n` bytes
     ContainerCompressed(CodecKind),
@@ -80,7 +83,7 @@ impl AllocPath {
     }
     /// reads a container header (whose own strings and metadata map are subject to the limit too)
     pub fn reads_header(&self) -> bool {
-        matches!(self, AllocPath::BlockSize | AllocPath::ContainerCompressed(_))
+        matches!(self, AllocPath::BlockSize | AllocPath::BlockSizeAfterGrowth | AllocPath::ContainerCompressed(_))
     }
     pub fn touches_name(&self) -> bool {
         matches!(self, AllocPath::DatumFixed | AllocPath::DeserFixed)
